@@ -32,11 +32,11 @@ def run(tier, seed, scale):
     def inv_cases(sweeps):
         return int(INV_SPACE * sweeps * max(1.0, scale) / max(scale, 1e-9)) + 1
     phases = [
-        Phase("rel-hot", "c06", "rel", 60000 if q else 700000, procs=6 if q else 10, min_nontrivial=3000),
-        Phase("rel-2cpu", "c06", "rel", 9000 if q else 120000, procs=2 if q else 4, cpus=2),
-        Phase("rel-1cpu", "c06", "rel", 4000 if q else 60000, procs=2 if q else 4, cpus=1),
-        Phase("dbg-hot", "c06", "dbg", 15000 if q else 250000, procs=3 if q else 6),
-        Phase("tsan", "c06", "tsan", 1500 if q else 25000, procs=3 if q else 6, timeout=1500),
+        Phase("rel-hot", "c06", "rel", 100000 if q else 700000, procs=6 if q else 10, min_nontrivial=3000),
+        Phase("rel-2cpu", "c06", "rel", 12000 if q else 120000, procs=2 if q else 4, cpus=2),
+        Phase("rel-1cpu", "c06", "rel", 5000 if q else 60000, procs=2 if q else 4, cpus=1),
+        Phase("dbg-hot", "c06", "dbg", 24000 if q else 250000, procs=3 if q else 6),
+        Phase("tsan", "c06", "tsan", 2100 if q else 25000, procs=3 if q else 6, timeout=1500),
         # exhaustive: every single-inversion position for every size around the cut-off
         Phase("rel-sortinv", "c06", "rel", inv_cases(1 if q else 5), procs=1, args=["--mode", "sortinv", "--conc", "4"]),
     ]
